@@ -17,6 +17,7 @@ type RunCfg struct {
 	PollMaxNs      int64   `json:"poll_max_ns"`
 	SinkMode       string  `json:"sink_mode,omitempty"`
 	SinkDelayNs    int64   `json:"sink_delay_ns,omitempty"`
+	SinkCallback   *Op     `json:"sink_callback,omitempty"` // request the SMF sends while it handles a notification, before answering it
 	VolumeLimit    int32   `json:"volume_limit,omitempty"`
 	VolumeLimitPDU int32   `json:"volume_limit_pdu,omitempty"`
 	QuotaValidity  int32   `json:"quota_validity,omitempty"`
@@ -26,7 +27,8 @@ type RunCfg struct {
 	SettleNs       int64   `json:"settle_ns,omitempty"`
 	Snapshots      bool    `json:"snapshots,omitempty"` // full state snapshot around every op (sequential runs only)
 	Concurrent     bool    `json:"concurrent,omitempty"`
-	MemRecords     bool    `json:"mem_records,omitempty"` // read the in-memory records after every op (sequential runs only)
+	WholeSystem    bool    `json:"whole_system,omitempty"` // C08: run the CHF in front of the rating server (tariff agreement end to end)
+	MemRecords     bool    `json:"mem_records,omitempty"`  // read the in-memory records after every op (sequential runs only)
 }
 
 type Account struct {
